@@ -1,4 +1,4 @@
-import PoseVerif.Proofs.PoseOps
+import PoseVerif.Proofs.C08Lemmas
 /-!
 # C08 — NumPy, PyTorch and TensorFlow bodies hold the same pose
 
@@ -9,9 +9,6 @@ import PoseVerif.Proofs.PoseOps
 namespace PoseVerif.Props.C08
 open PoseVerif
 variable {S : Type}
-
-def Consistent (isZero : S → Bool) (b : PBody S) : Prop := b.missing = deriveMissing isZero b.data b.conf
-
 /-- Reading the same data into any of the three body types gives the same body: same coordinates, confidences and missing pattern. -/
 theorem backends_agree (isZero : S → Bool) (fps : S) (data : A4 S) (conf : A3 S) (be₁ be₂ : Backend) :
     mkBody be₁ isZero fps data conf none = mkBody be₂ isZero fps data conf none := by
@@ -48,42 +45,9 @@ theorem missing_all_dims_iff_conf_zero (isZero : S → Bool) (data : A4 S) (conf
   exact h3
 
 end PoseVerif.Props.C08
-
 namespace PoseVerif.Props.C08
 open PoseVerif
 variable {S : Type}
-
-/-! ### the shared operations give the same result on every backend -/
-
-theorem derive_selectFrames (isZero : S → Bool) (data : A4 S) (conf : A3 S) (hs : SameShape3 data conf) (ixs : List Nat) :
-    deriveMissing isZero (pickD ixs data) (pickD ixs conf) = pickD ixs (deriveMissing isZero data conf) := by
-  unfold deriveMissing
-  rw [pickD_zipWith _ (by rfl) ixs data conf hs.length_eq]
-
-theorem derive_sliceStep (isZero : S → Bool) (data : A4 S) (conf : A3 S) (hs : SameShape3 data conf) (k : Nat) :
-    deriveMissing isZero (everyNth k data) (everyNth k conf) = everyNth k (deriveMissing isZero data conf) := by
-  unfold deriveMissing
-  rw [everyNth_zipWith _ (by rfl) k data conf hs.length_eq]
-
-theorem derive_getPoints [Inhabited S] (isZero : S → Bool) (data : A4 S) (conf : A3 S) (hs : SameShape3 data conf) (ixs : List Nat) :
-    deriveMissing isZero (data.map (List.map (pickD ixs))) (conf.map (List.map (pickD ixs))) =
-      (deriveMissing isZero data conf).map (List.map (pickD ixs)) := by
-  unfold deriveMissing
-  rw [List.zipWith_map_left, List.zipWith_map_right, List.map_zipWith]
-  apply zipWith_congr_F2 _ _ data conf hs
-  intro fr cf hfr
-  rw [List.zipWith_map_left, List.zipWith_map_right, List.map_zipWith]
-  apply zipWith_congr_F2 _ _ fr cf hfr
-  intro pts cs hlen
-  exact (pickD_zipWith _ (by rfl) ixs pts cs hlen).symm
-
-theorem mkBody_consistent_some (be : Backend) (isZero : S → Bool) (fps : S) (data : A4 S) (conf : A3 S) (m : A4 Bool)
-    (hm : m = deriveMissing isZero data conf) : mkBody be isZero fps data conf (some m) = ⟨fps, data, conf, m⟩ := by
-  cases be
-  · simp only [mkBody]; rw [← hm, or4_self]
-  · rfl
-  · rfl
-
 /-- point selection: the same body on every backend (and consistent again) -/
 theorem getPoints_agree [Inhabited S] (isZero : S → Bool) (b : PBody S) (hc : Consistent isZero b) (hs : SameShape3 b.data b.conf) (ixs : List Nat) (be₁ be₂ : Backend) :
     getPoints be₁ isZero ixs b = getPoints be₂ isZero ixs b := by
@@ -116,12 +80,6 @@ theorem sliceStep_agree [Inhabited S] (sc : Scalar S) (isZero : S → Bool) (b :
 
 /-- zero-fill and copy do not depend on the backend at all -/
 theorem zeroFilled_backend_free (sc : Scalar S) (b : PBody S) : (zeroFilledBody sc b).missing = b.missing ∧ (zeroFilledBody sc b).conf = b.conf := ⟨rfl, rfl⟩
-
-/-- one point's coordinates with the flagged ones replaced by exactly 0 -/
-def zfRow (sc : Scalar S) (row : List S) (fl : List Bool) : List S := List.zipWith (fun x (mm : Bool) => if mm then sc.zero else x) row fl
-
-theorem rowMat_length [Inhabited S] (sc : Scalar S) (a b : List S) (m : List (List S)) : (rowMat sc a m).length = (rowMat sc b m).length := by
-  cases m <;> simp [rowMat]
 
 /-- matrix product, one point: multiplying the zero-filled coordinates (NumPy's `ma.dot`) and multiplying the raw coordinates (torch / tensorflow) give the same
     visible result — both zero-filled by the point's flag `z` replicated over its coordinates. No law of arithmetic is used. -/
